@@ -89,6 +89,9 @@ def tasks(tier, seed):
                  [((2, 2, 4, False, True), {'shrink': False, 'NL': 2}), ((3, 1, 4, False, True), {'shrink': True, 'NL': 2}), ((2, 2, 4, True, True), {'shrink': False, 'NL': 2}),
                   ((3, 1, 4, False, True), {'shrink': False, 'NL': 2})]):
         T.append(('hist',) + h + ([], o))
+    # restarts that change the step size with the shipped InterpolateBetweenRestarts controller loaded; retry budget exhausted with and without a crash
+    for h in [(1, 1, 3, False, False), (1, 1, 3, False, True), (2, 1, 3, False, False)]:
+        T.append(('hist',) + h + ([], {'shrink': True, 'interp': True}))
     for h in hist:
         depth = 0 if h[0] < 3 else (3 if quick else 4)
         for bits in range(2 ** depth):
@@ -779,6 +782,13 @@ class Inject(ConvergenceController):
                         L.status.dt_new = L.params.dt / 2
 
 
+class InjectEarly(Inject):
+    """the same injection with the control order of the adaptivity controllers (before InterpolateBetweenRestarts and BasicRestarting)"""
+
+    def setup(self, controller, params, description, **kw):
+        return {**super().setup(controller, params, description, **kw), 'control_order': -40}
+
+
 class RecH(Hooks):
     def post_step(self, step, level_number):
         super().post_step(step, level_number)
@@ -794,7 +804,13 @@ def hist_opts(shrink):
     return bool(shrink), 1
 
 
+def hist_interp(shrink):
+    """option 'interp': the shipped InterpolateBetweenRestarts controller is loaded too (it rewrites the node values of a restarted step)"""
+    return isinstance(shrink, dict) and bool(shrink.get('interp', False))
+
+
 def hist_run(c, NP, MAXR, NSTEPS, FIRST, CRASH, extra_hooks=(), shrink=False):
+    interp = hist_interp(shrink)
     shrink, NL = hist_opts(shrink)
     H['att'] = {}
     H['log'] = []
@@ -802,7 +818,12 @@ def hist_run(c, NP, MAXR, NSTEPS, FIRST, CRASH, extra_hooks=(), shrink=False):
     H['shrink'] = shrink
     H['granted'] = 0
     # the restart mode is given in the description, so that the REAL BasicRestarting.dependencies configures the step-size spreader for it
-    desc = base_desc(NL=NL, extra_cc={Inject: {}, BasicRestartingNonMPI: {'max_restarts': MAXR, 'restart_from_first_step': FIRST, 'crash_after_max_restarts': CRASH}})
+    extra_cc = {(InjectEarly if interp else Inject): {}, BasicRestartingNonMPI: {'max_restarts': MAXR, 'restart_from_first_step': FIRST, 'crash_after_max_restarts': CRASH}}
+    if interp:
+        from pySDC.implementations.convergence_controller_classes.interpolate_between_restarts import InterpolateBetweenRestarts
+
+        extra_cc[InterpolateBetweenRestarts] = {}
+    desc = base_desc(NL=NL, extra_cc=extra_cc)
     ctl = controller_nonMPI(NP, {'logger_level': 50, 'dump_setup': False, 'hook_class': [RecH] + list(extra_hooks), 'mssdc_jac': False}, desc)
     P = ctl.MS[0].levels[0].prob
     u0 = P.u_exact(0)
@@ -882,7 +903,7 @@ def hist_judge(r, NP, MAXR, NSTEPS, FIRST, CRASH, shrink=False):
 
 
 def hist_case(rep, NP, MAXR, NSTEPS, FIRST, CRASH, prefix, pid=PID, clauses=None, shrink=False):
-    name = f'hist/NP{NP}/maxr{MAXR}/steps{NSTEPS}/first{int(FIRST)}/crash{int(CRASH)}' + ('/shrink' if hist_opts(shrink)[0] else '') + (f'/NL{hist_opts(shrink)[1]}' if hist_opts(shrink)[1] > 1 else '')
+    name = f'hist/NP{NP}/maxr{MAXR}/steps{NSTEPS}/first{int(FIRST)}/crash{int(CRASH)}' + ('/shrink' if hist_opts(shrink)[0] else '') + (f'/NL{hist_opts(shrink)[1]}' if hist_opts(shrink)[1] > 1 else '') + ('/interp' if hist_interp(shrink) else '')
 
     def fn(c):
         r = hist_run(c, NP, MAXR, NSTEPS, FIRST, CRASH, shrink=shrink)
